@@ -473,14 +473,16 @@ def value_to_int(v):
 def get_trace(h, cfg, binary, prop, timeout, mem):
     # no --slice-formula here: slicing drops draws the property does not depend on from the trace,
     # which would shift the replay vector
-    cmd = [c for c in cbmc_cmd(h, cfg, binary, extra=["--trace", "--property", prop]) if c != "--slice-formula"]
-    r = sh(cmd, timeout=timeout, mem_gb=mem)
-    res, status, msgs = parse_cbmc_json(r.stdout)
-    if not res:
-        return None
-    for p in res:
-        if p["property"] == prop and "trace" in p:
-            return p["trace"]
+    full = cbmc_cmd(h, cfg, binary, extra=["--trace", "--property", prop])
+    # second attempt WITH slicing if the unsliced formula does not fit (memory / time): the replay
+    # vector may then miss draws the property does not depend on - which the native replay step
+    # detects (a vector that does not reproduce is reported as inconclusive, never as a violation)
+    for cmd in ([c for c in full if c != "--slice-formula"], full):
+        r = sh(cmd, timeout=timeout, mem_gb=mem)
+        res, status, msgs = parse_cbmc_json(r.stdout)
+        for p in res or []:
+            if p["property"] == prop and "trace" in p:
+                return p["trace"]
     return None
 
 
@@ -879,6 +881,12 @@ def check(prop, tier, seed, jobs, only=None):
         write_evidence(prop, tier, seed, [], build_s, time.time() - t0, inconclusive=["encode failed"])
         return 2
     _META["meta"] = meta
+    if build_s > 5:
+        # the tree changed (it was re-encoded): if a harness fails, its counterexample is replayed
+        # against native dev + release builds of this tree - start those builds now, in parallel
+        # with the solver runs (4-5 minutes otherwise spent after the verdicts are in)
+        import threading
+        threading.Thread(target=replay_build, daemon=True).start()
     hs = [h for h in harnesses(meta) if h["prop"] == prop and (h["tier"] == "q" or (tier == "thorough" and h["tier"] == "t"))]
     if only:
         hs = [h for h in hs if any(o in h["name"] for o in only)]
@@ -930,7 +938,7 @@ def check(prop, tier, seed, jobs, only=None):
             binary, _ = prepare(h)
             if "minisat" in rec.get("backend", ""):
                 cfg = dict(cfg, sat="minisat2")
-            tr = get_trace(h, cfg, binary, f["property"], 3600, 20)
+            tr = get_trace(h, cfg, binary, f["property"], 1800, max(20, cfg.get("mem_gb", 8) + 8))
             values = draws_of(tr) if tr else None
             os.makedirs(os.path.join(OUT, "replay", prop), exist_ok=True)
             rp = os.path.join(OUT, "replay", prop, "%s.%s.json" % (rec["name"], hashlib.md5(role.encode()).hexdigest()[:8]))
